@@ -139,6 +139,11 @@ class Interpret {
 
     bool            f_exit;
     mutable bool    _okStatus{true};
+    mutable unsigned errorCount{0}; // number of error responses issued so far
+
+    // Names given with :named inside the command being interpreted. They are registered in the solver only once the
+    // whole command has been accepted, so a rejected command leaves no name behind.
+    std::vector<std::pair<std::string, PTRef>> pendingTermNames;
 
     vec<PTRef>      assertions;
     vec<SymRef>     user_declarations;
